@@ -10,7 +10,7 @@ TECH = "deterministic simulation with fault injection: seeded tape decides every
 # property -> (engine, design section, level text, level note, technique suffix)
 CLAIMED = {
     "C14": ("E5-schema", "4/C14",
-            "Seeded search over schema edit histories (1..40 edits over a colliding name pool) against a reference model, checked after every call: no panic, failed edits leave the schema untouched, removals of absent things are no-ops, state equals the model, well-formedness invariants, lookups agree, two-way relationships succeed in any direction. Sampling, not enumeration: a clean batch is evidence, not proof.",
+            "Seeded search over schema edit histories (1..40 edits over a colliding name pool) against a reference model, checked after every call or, in part of the runs, only after every 2nd-5th call (so that lazily maintained state is not tidied by the checker): no panic, failed edits leave the schema untouched, removals of absent things are no-ops, state equals the model, well-formedness invariants, lookups agree, two-way relationships succeed in any direction. Sampling, not enumeration: a clean batch is evidence, not proof.",
             "Trusts the reference model (~100 lines), the instrumenter (go/ast rewrite of a scratch copy; self-tested against the repo's own tests) and Go's runtime. Where the statement does not pin an outcome down the model follows the library and only invariants are checked.",
             "operation-history simulation vs reference model"),
     "C15": ("E5-schema", "4/C15",
@@ -22,7 +22,7 @@ CLAIMED = {
             "Only fully consistent schemas are judged. The algebraic laws are sampled over a name pool chosen to collide, not enumerated over all strings.",
             "build-order and map-order permutation simulation, metamorphic oracle"),
     "C17": ("E6-resource", "4/C17",
-            "A SoftResource and a Wrapper (run-time reflect.StructOf struct) of one generated type are driven in lock step by seeded histories of 1..40 well-typed Set calls (28 kinds, boundary values, typed/untyped nil, nil/empty lists, id) and compared with a model and with each other after every call; fresh resources must be the type's zero; Equal/EqualStrict are checked for reflexivity, symmetry and 'differs => not equal' on pairs derived from the history.",
+            "A SoftResource and a Wrapper (run-time reflect.StructOf struct) of one generated type are driven in lock step by seeded histories of 1..40 well-typed Set calls (28 kinds, boundary values, typed/untyped nil, nil/empty lists, id) and compared with a model and with each other after every call (or every 2nd-4th); a fifth of the runs drive a soft resource alone through Set / RemoveField / AddAttr / AddRel histories that re-add removed names; fresh resources must be the type's zero; Equal/EqualStrict are checked for reflexivity, symmetry and 'differs => not equal' on pairs derived from the history.",
             "Values are sampled (boundary-biased), not enumerated. nil/empty byte strings and ID lists and typed/untyped nil are the same value. One open known finding (Equal ignores field names; pinned by TestEqual).",
             "lock-step operation-history simulation of two implementations vs reference model"),
     "C18": ("E6-resource", "4/C18",
@@ -30,11 +30,11 @@ CLAIMED = {
             "Pointees of nullable scalar attributes are not mutated (the statement lists slices only). Sampling over types, values and mutation histories.",
             "aliasing simulation: mutate one handle, watch the other, over seeded histories"),
     "C19": ("E4-store", "4/C19",
-            "Seeded histories of 1..40 store operations on one SoftCollection (Add of same/narrower/wider/conflicting resources, soft or wrapped, duplicate and empty IDs; Remove first/middle/last/absent/duplicate; AddAttr/AddRel; SetType on a non-empty collection; later Set on the caller's handle) against an ordered-list model, compared after every step: Len, every At including out-of-range, Resource, type name, each stored resource's field set, definitions and values.",
+            "Seeded histories of 1..40 store operations on one SoftCollection (Add of same/narrower/wider/conflicting resources, soft or wrapped, duplicate and empty IDs; Remove first/middle/last/absent/duplicate; AddAttr/AddRel; SetType on a non-empty collection; later Set on the caller's handle) incl. bulk grow / drain phases, against an ordered-list model, compared after every step or only every 2nd-5th step: Len, every At including out-of-range, Resource, type name, each stored resource's field set, definitions and values.",
             "A name that is both attribute and relationship is never generated; SetType installs types whose same-named fields keep their definitions; writes through slices shared with the caller are not part of the statement and not tested.",
             "operation-history simulation vs ordered-list reference model"),
     "C09": ("E4-store", "4/C09",
-            "Range is issued as a read operation on the store states seeded histories reach (SoftCollection with lazily materialised zero values and fields added after storing) and on Resources / WrapperCollection twins holding the same records as wrapped structs; the page is checked by ranks against an independent select -> filter -> order reference, consecutive pages must partition the matches, a permuted initial order must not matter when id is a rule, the input collection must keep its members and order, no panic, non-nil result.",
+            "Range is issued as a read operation on the store states seeded histories reach (SoftCollection with lazily materialised zero values and fields added after storing) and on Resources / WrapperCollection twins holding the same records as wrapped structs; the page is checked by ranks against an independent select -> filter -> order reference, consecutive pages must partition the matches, a permuted initial order must not matter when id is a rule, the input collection must keep its members and order, no panic (a fatal runtime error that kills a worker is pinned to its run by bisection), non-nil result; pages returned earlier are re-read after later queries and ranged over as inputs.",
             "IDs unique (domain). Sort/filter semantics are sampled; what simulation contributes is the store states and the untouched-input clause. One open known finding (rules on uint64 / *uint64 / *[]byte attributes are skipped; pinned by TestSortResources), recognised only when the page is exactly what skipping those rules gives.",
             "query-on-simulated-store-states vs reference evaluator, rank-based oracle"),
     "C11": ("E1-doc", "4/C11",
